@@ -16,6 +16,14 @@ import (
 
 func init() { workloads["root10"] = root10Workload }
 
+// swapCase turns "b12" into "B12" and back.
+func swapCase(v string) string {
+	if v == strings.ToLower(v) {
+		return strings.ToUpper(v)
+	}
+	return strings.ToLower(v)
+}
+
 // A write set: what differs from the committed state after the block.
 type wsEntry struct {
 	A     int    `json:"a"`
@@ -250,8 +258,12 @@ func root10Workload(args []string) int {
 						base[fmt.Sprintf("%d|code", acct)] = fmt.Sprintf("basecode%d", ctr)
 					default:
 						k := kvKeys[rng.Intn(len(kvKeys))]
-						ops = append(ops, kvOp{Op: "set", A: acct, K: k, V: fmt.Sprintf("b%d", ctr)})
-						base[fmt.Sprintf("%d|s:%s", acct, k)] = fmt.Sprintf("b%d", ctr)
+						nv := fmt.Sprintf("b%d", ctr)
+						if old := base[fmt.Sprintf("%d|s:%s", acct, k)]; old != "" && rng.Intn(3) == 0 {
+							nv = swapCase(old) // a later base block overwrites the value by one that differs in letter case only
+						}
+						ops = append(ops, kvOp{Op: "set", A: acct, K: k, V: nv})
+						base[fmt.Sprintf("%d|s:%s", acct, k)] = nv
 					}
 				}
 				for acct := 0; acct < 3; acct++ {
@@ -281,7 +293,11 @@ func root10Workload(args []string) int {
 					}
 					e = wsEntry{acct, "s:" + k, "<nil>"}
 				default:
-					e = wsEntry{acct, "s:" + kvKeys[rng.Intn(len(kvKeys))], fmt.Sprintf("w%d", ctr)}
+					k := kvKeys[rng.Intn(len(kvKeys))]
+					e = wsEntry{acct, "s:" + k, fmt.Sprintf("w%d", ctr)}
+					if old := base[fmt.Sprintf("%d|s:%s", acct, k)]; old != "" && rng.Intn(4) == 0 {
+						e.V = swapCase(old) // differs from the committed value in letter case only
+					}
 				}
 				key := fmt.Sprintf("%d|%s", e.A, e.Field)
 				if seen[key] {
